@@ -211,6 +211,58 @@ func c05ClientAuth(w *World, r *Report) {
 		}
 		return false
 	}
+	// "the requirement is known to be off": a false test of the flag itself, or of a predicate whose false
+	// answer implies it (`ClientCertRequired()`)
+	flagKnownFalse := func(facts map[ssa.Value]bool) bool {
+		for v, t := range facts {
+			if t {
+				continue
+			}
+			if isLoadOfField(v, reqFlag) {
+				return true
+			}
+			if c, ok := v.(*ssa.Call); ok {
+				if g := c.Call.StaticCallee(); g != nil && inModule(g) && predicateHelperImplies(g, false, func(f2 map[ssa.Value]bool) bool {
+					for v2, t2 := range f2 {
+						if !t2 && isLoadOfField(v2, reqFlag) {
+							return true
+						}
+					}
+					return false
+				}) {
+					return true
+				}
+			}
+		}
+		return false
+	}
+	// a policy helper: `conf.ClientAuth = m.clientAuthPolicy()` — every return of the helper hands out the
+	// requirement unless the flag is known to be off on that path
+	policyOK := func(v ssa.Value) bool {
+		c, ok := v.(*ssa.Call)
+		if !ok {
+			return false
+		}
+		g := c.Call.StaticCallee()
+		if g == nil || !inModule(g) || len(g.Blocks) == 0 {
+			return false
+		}
+		all, n := true, 0
+		okp := enumPaths(g, nil, nil, nil, func(e pathExit) {
+			ret, isRet := e.Last.(*ssa.Return)
+			if !isRet || len(ret.Results) != 1 {
+				return
+			}
+			n++
+			if k, isC := constIntVal(e.State.Resolve(ret.Results[0])); isC && k == want {
+				return
+			}
+			if !flagKnownFalse(e.State.Facts) {
+				all = false
+			}
+		})
+		return okp && all && n > 0
+	}
 	bad := ""
 	succ := 0
 	ok := enumPaths(fn, nil, isEv, nil, func(e pathExit) {
@@ -225,7 +277,7 @@ func c05ClientAuth(w *World, r *Report) {
 		for _, ev := range e.State.Events {
 			if st, isSt := ev.(*ssa.Store); isSt {
 				// the LAST store decides what the configuration says
-				if v, okv := constIntVal(st.Val); okv && v == want {
+				if v, okv := constIntVal(st.Val); (okv && v == want) || policyOK(st.Val) {
 					stores++
 					lastOther = ""
 				} else {
@@ -251,6 +303,9 @@ func c05ClientAuth(w *World, r *Report) {
 			}
 		}
 		if reqKnown && !req {
+			return
+		}
+		if !reqKnown && flagKnownFalse(e.State.Facts) {
 			return
 		}
 		if stores == 0 && lastOther != "" {
@@ -777,6 +832,11 @@ func kdfIn(w *World, entry *ssa.Function) (*kdfFacts, string) {
 				}
 				saltRoots = append(saltRoots, root)
 			}
+			for i := 0; i < len(saltRoots); i++ {
+				if sl, ok := saltRoots[i].(*ssa.Slice); ok {
+					saltRoots = append(saltRoots, provenance(sl.X, provOpts{})...)
+				}
+			}
 			for _, root := range saltRoots {
 				if seenPart[root] {
 					continue
@@ -798,10 +858,19 @@ func kdfIn(w *World, entry *ssa.Function) (*kdfFacts, string) {
 						continue // the zero value of the salt variable before a password is seen
 					}
 					parts = append(parts, "const:"+cst.String())
+				} else if al, ok := root.(*ssa.Alloc); ok && al.Referrers() != nil {
+					// `digest := sha256.Sum256(pass); salt = digest[:]` — the one-shot form of New/Write/Sum(nil)
+					for _, ref := range *al.Referrers() {
+						if st, ok := ref.(*ssa.Store); ok && st.Addr == ssa.Value(al) {
+							if sc, ok := st.Val.(*ssa.Call); ok && sCallee(sc) != nil {
+								parts = append(parts, sCallee(sc).FullName())
+							}
+						}
+					}
 				}
 			}
 			sort.Strings(parts)
-			k.SaltScheme = strings.Join(parts, ",")
+			k.SaltScheme = canonicalDigestScheme(strings.Join(parts, ","))
 			// constructor applied to the key
 			key := c.(*ssa.Call)
 			passedIn := func(g *ssa.Function, blk ssa.Value, except ssa.CallInstruction) bool {
@@ -1705,4 +1774,24 @@ func cfgBuilderSetsName(w *World, h *ssa.Function, site *ssa.Call, serverName *t
 		}
 	})
 	return okp && good && n > 0
+}
+
+// canonicalDigestScheme: `h := sha256.New(); h.Write(x); h.Sum(nil)` and `sha256.Sum256(x)` are one derivation.
+func canonicalDigestScheme(scheme string) string {
+	table := map[string]string{
+		"Sum,crypto/sha256.New":    "digest:sha256",
+		"crypto/sha256.Sum256":     "digest:sha256",
+		"Sum,crypto/sha256.New224": "digest:sha224",
+		"crypto/sha256.Sum224":     "digest:sha224",
+		"Sum,crypto/sha512.New":    "digest:sha512",
+		"crypto/sha512.Sum512":     "digest:sha512",
+		"Sum,crypto/sha1.New":      "digest:sha1",
+		"crypto/sha1.Sum":          "digest:sha1",
+		"Sum,crypto/md5.New":       "digest:md5",
+		"crypto/md5.Sum":           "digest:md5",
+	}
+	if c, ok := table[scheme]; ok {
+		return c
+	}
+	return scheme
 }
